@@ -338,13 +338,17 @@ def run(chk, facts, tier, only=None):
         model, info = lexer()
         chk.analysed(info["fn"])
         chk.ok("lexer:escape-arms", "EscapeCharacter arms decode " + " ".join("\\" + k for k in sorted(info["escapes"])))
-        chk.floor("escape characters known to the string sub-lexer", len(info["escapes"]), 6)
+        chk.floor("escape characters known to the string sub-lexer", len(info["escapes"]), 4)
+
+        memo = {}
 
         def decode(body):
-            try:
-                return model.lex_string(body)
-            except LexError as e:
-                return e
+            if body not in memo:
+                try:
+                    memo[body] = model.lex_string(body)
+                except LexError as e:
+                    memo[body] = e
+            return memo[body]
 
         def check_escaper(name, emit_alternatives, alphabet, sites):
             """emit_alternatives(text) -> list of possible emitted bodies for `text`. Every 1- and 2-scalar text over
@@ -352,6 +356,7 @@ def run(chk, facts, tier, only=None):
             fails = {}
             groups = {}
             solo_bad = {a: any(decode(body) != a.encode("utf-8", "surrogatepass") for body in emit_alternatives(a)) for a in alphabet}
+            right = [a for a in alphabet if ord(a) < 128 or a in ("\x80", "é", "̀", "\U0010ffff")]
             for a in alphabet:
                 fa = emit_alternatives(a)
                 for f in fa:
@@ -359,7 +364,7 @@ def run(chk, facts, tier, only=None):
                                                                       ("\\xx" if f.startswith("\\") else "literal"))
                     groups.setdefault(lab, 0)
                     groups[lab] += 1
-                for b in [None] + alphabet:
+                for b in [None] + right:
                     text = a + (b or "")
                     want = text.encode("utf-8", "surrogatepass")
                     if b is not None and solo_bad.get(b):
@@ -374,14 +379,14 @@ def run(chk, facts, tier, only=None):
             for lab in sorted(groups):
                 if lab in fails or (lab == "literal" and any(x.startswith("literal:") for x in fails)):
                     continue
-                chk.ok(f"form:{name}:{lab}", f"{groups[lab]} sample scalar(s) x {len(alphabet) + 1} right contexts re-lex to the same text")
+                chk.ok(f"form:{name}:{lab}", f"{groups[lab]} sample scalar(s) x {len(right) + 1} right contexts re-lex to the same text")
             for lab, fl in sorted(fails.items()):
                 text, body, got = fl[0]
                 hexctx = [t for t, _, g in fl if len(t) == 2 and t[1] in "0123456789abcdefABCDEF" and not isinstance(g, LexError)]
                 errs = [t for t, _, g in fl if isinstance(g, LexError)]
                 what = []
                 if hexctx:
-                    t = hexctx[0]
+                    t = next((x for x in hexctx if x[1] == "1"), hexctx[0])
                     b0 = [b for x, b, _ in fl if x == t][0]
                     g0 = [g for x, _, g in fl if x == t][0]
                     what.append(f"followed by a hex digit it is read as a byte escape (e.g. text {vis(t)!r} is printed "
@@ -406,6 +411,7 @@ def run(chk, facts, tier, only=None):
         n_place = 0
         n_quoted = 0
         fns = printer_fns(c)
+        records = []
         for h in fns:
             chk.analysed(h["key"])
             in_value = h["key"].startswith(VALUE_MOD) or h["key"].endswith("pretty::candid::ident_string") \
@@ -413,72 +419,113 @@ def run(chk, facts, tier, only=None):
             if not in_value:
                 continue
             fl = Flow(c, h)
-            fs = fn_short(h)
-            idx = {}
             for fc, part, inside in emission_order(h["body"]):
-                if isinstance(part, str):
-                    continue
-                n_place += 1
-                cls, det = fl.classify(part)
-                idx[fs] = idx.get(fs, 0)
-                where = f"{h['span']['file']}:{fc.ln}"
-                tag = f"{fs}:{vis(fc.template())}"
-                if cls == "escaper":
-                    escaper_sites.setdefault(det, []).append(fs)
-                    wraps = STD_ESCAPERS.get(det, (None, None, None))[2]
-                    if det not in STD_ESCAPERS or wraps == "'":
-                        chk.bad(f"sink:{tag}", f"{fs}: text is formatted with {det}, whose output is not a Candid string body", where)
-                    elif (wraps is None) != inside:
-                        chk.bad(f"sink:{tag}", f"{fs}: {det} output is placed {'inside' if inside else 'outside'} string quotes "
-                                               f"in template {vis(fc.template())!r}", where)
-                    else:
-                        n_quoted += 1
-                        chk.ok(f"sink:{tag}", f"escaped by {det}")
-                elif cls in ("pp_char", "hexbyte"):
-                    if not inside:
-                        chk.bad(f"sink:{tag}", f"{fs}: blob byte printed outside string quotes in {vis(fc.template())!r}", where)
-                    elif cls == "hexbyte":
-                        i = fc.parts.index(part)
-                        pre = fc.parts[i - 1] if i > 0 and isinstance(fc.parts[i - 1], str) else ""
-                        good = pre.endswith("\\") and part.width == 2 and part.zero_pad and part.trait == "lower_hex"
-                        body_ok = good and all(decode("\\" + render_placeholder(part, v) + ctx) == bytes([v]) + ctx.encode()
-                                               for v in range(256) for ctx in ("", "0", "f", "A", "z"))
-                        chk.expect(bool(body_ok), f"sink:{tag}",
-                                   f"{fs}: blob byte template {vis(fc.template())!r} must be a backslash followed by exactly two "
-                                   f"hex digits (`\\{{:02x}}`) so that the Byte regex decodes it", where,
-                                   ok_detail="\\{:02x}: 256 bytes x 5 contexts decode to the same byte")
-                        n_quoted += 1
-                    else:
-                        n_quoted += 1
-                        chk.ok(f"sink:{tag}", "byte printed by pp_char")
-                elif cls == "principal":
-                    chk.expect(inside, f"sink:{tag}", f"{fs}: principal text printed outside string quotes in {vis(fc.template())!r}", where,
-                               ok_detail="principal text (base32 alphabet) inside quotes")
-                elif cls == "repo-fn":
-                    if inside:
-                        repo_escapers.setdefault(det, []).append(fs)
-                        n_quoted += 1
-                        chk.ok(f"sink:{tag}", f"escaped by {det}")
-                    else:
-                        chk.bad(f"sink:{tag}", f"{fs}: the result of {det} is printed outside quotes in {vis(fc.template())!r}; "
-                                               f"cannot establish that it is a token sequence", where)
-                elif cls in ("recursive", "number", "doc", "ident", "literal", "format", "number-text", "label", "label-in-match"):
-                    if inside:
-                        chk.bad(f"sink:{tag}", f"{fs}: {cls} value printed inside string quotes in {vis(fc.template())!r}", where)
-                    else:
-                        chk.ok(f"sink:{tag}", cls, nontrivial=False)
-                    if cls == "number-text":
-                        chk.assume("IDLValue::Number holds the digit string produced by the parser's NumLiteral (optional '-', decimal digits)")
-                elif cls == "raw":
-                    if re.search(LABEL_DISPLAY, h["key"]):
-                        # Display for Label prints names raw by design; its uses are judged by C11.R2
-                        chk.ok(f"sink:{tag}", "Label::Named printed raw by Display for Label (uses are checked by R2)", nontrivial=False)
-                    else:
-                        chk.bad(f"sink:{tag}", f"{fs}: program text {det} reaches the output through template "
-                                               f"{vis(fc.template())!r} without an escaper", where)
+                if isinstance(part, Placeholder):
+                    cls, det = fl.classify(part)
+                    records.append((h, fl, fc, part, inside, cls, det))
+        # leaf escapers are evaluated as a whole below; their own templates are not sinks
+        leaf = {h["key"] for h in fns if h["key"].endswith("pretty::candid::value::pp_char")}
+        leaf |= {det for (_, _, _, _, inside, cls, det) in records if cls == "repo-fn" and inside}
+        used_keys = {}
+        for h, fl, fc, part, inside, cls, det in records:
+            if h["key"] in leaf:
+                continue
+            fs = fn_short(h)
+            n_place += 1
+            where = f"{h['span']['file']}:{fc.ln}"
+            ctx = fl.context(fc.node)
+            ktpl = "".join(x if isinstance(x, str) else "{%s:%s}" % (x.trait, short(strip_ty(x.ty))) for x in fc.parts)
+            tag = f"{fs}:{ctx + ':' if ctx else ''}{vis(ktpl)}#{fc.parts.index(part)}"
+            used_keys[tag] = used_keys.get(tag, 0) + 1
+            if used_keys[tag] > 1:
+                tag += f"~{used_keys[tag]}"
+            if cls == "escaper":
+                escaper_sites.setdefault(det, []).append(fs)
+                wraps = STD_ESCAPERS.get(det, (None, None, None))[2]
+                if det not in STD_ESCAPERS or wraps == "'":
+                    chk.bad(f"sink:{tag}", f"{fs}: text is formatted with {det}, whose output is not a Candid string body", where)
+                elif (wraps is None) != inside:
+                    chk.bad(f"sink:{tag}", f"{fs}: {det} output is placed {'inside' if inside else 'outside'} string quotes "
+                                           f"in template {vis(fc.template())!r}", where)
                 else:
-                    chk.bad(f"sink:{tag}", f"{fs}: cannot classify what template {vis(fc.template())!r} prints ({det}); "
-                                           f"anchor moved or unescaped text", where)
+                    n_quoted += 1
+                    chk.ok(f"sink:{tag}", f"escaped by {det}")
+            elif cls in ("pp_char", "hexbyte"):
+                if not inside:
+                    chk.bad(f"sink:{tag}", f"{fs}: blob byte printed outside string quotes in {vis(fc.template())!r}", where)
+                elif cls == "hexbyte":
+                    i = fc.parts.index(part)
+                    pre = fc.parts[i - 1] if i > 0 and isinstance(fc.parts[i - 1], str) else ""
+                    good = pre.endswith("\\") and not pre.endswith("\\\\")
+                    body_ok = good and all(decode("\\" + render_placeholder(part, v) + ctx_) == bytes([v]) + decode(ctx_)
+                                           for v in range(256) for ctx_ in ("", "0", "f", "A", "z", "\\00"))
+                    chk.expect(bool(body_ok), f"sink:{tag}",
+                               f"{fs}: blob byte template {vis(fc.template())!r} must be a backslash followed by exactly two "
+                               f"hex digits (`\\{{:02x}}`) so that the Byte regex decodes it to the same byte", where,
+                               ok_detail="256 bytes x 6 right contexts decode to the same byte")
+                    n_quoted += 1
+                else:
+                    n_quoted += 1
+                    chk.ok(f"sink:{tag}", "byte printed by pp_char")
+            elif cls == "principal":
+                chk.expect(inside, f"sink:{tag}", f"{fs}: principal text printed outside string quotes in {vis(fc.template())!r}", where,
+                           ok_detail="principal text (base32 alphabet) inside quotes")
+            elif cls == "repo-fn":
+                if inside:
+                    repo_escapers.setdefault(det, []).append(fs)
+                    n_quoted += 1
+                    chk.ok(f"sink:{tag}", f"escaped by {det}")
+                else:
+                    chk.bad(f"sink:{tag}", f"{fs}: the result of {det} is printed outside quotes in {vis(fc.template())!r}; "
+                                           f"cannot establish that it is a token sequence", where)
+            elif cls in ("recursive", "number", "doc", "ident", "literal", "format", "number-text", "label", "label-in-match"):
+                if inside:
+                    chk.bad(f"sink:{tag}", f"{fs}: {cls} value printed inside string quotes in {vis(fc.template())!r}", where)
+                else:
+                    chk.ok(f"sink:{tag}", cls, nontrivial=False)
+                if cls == "number-text":
+                    chk.assume("IDLValue::Number holds the digit string produced by the parser's NumLiteral (optional '-', decimal digits)")
+            elif cls == "raw":
+                if re.search(LABEL_DISPLAY, h["key"]):
+                    # Display for Label prints names raw by design; its uses are judged by C11.R2
+                    chk.ok(f"sink:{tag}", "Label::Named printed raw by Display for Label (uses are checked by R2)", nontrivial=False)
+                else:
+                    chk.bad(f"sink:{tag}", f"{fs}: program text {det} reaches the output through template "
+                                           f"{vis(fc.template())!r} without an escaper", where)
+            else:
+                chk.bad(f"sink:{tag}", f"{fs}: cannot classify what template {vis(fc.template())!r} prints ({det}); "
+                                       f"anchor moved or unescaped text", where)
+        # document sinks (RcDoc::text / as_string / kwd / str / ident) fed with a string that is not a literal
+        n_doc = 0
+        for h in fns:
+            in_value = h["key"].startswith(VALUE_MOD) or re.search(r"pretty::candid::(pp_text|pp_label_raw|pp_label)$", h["key"])
+            if not in_value or h["key"] in leaf:
+                continue
+            fl = Flow(c, h)
+            fs = fn_short(h)
+            for n in walk(h["body"]):
+                if n.get("k") != "call" or not n.get("args"):
+                    continue
+                cal = callee(n) or ""
+                if not (re.search(r"RcDoc(::<[^>]*>)?::(text|as_string)$", cal) or re.search(r"pretty::utils::(kwd|str|ident)$", cal)):
+                    continue
+                a = n["args"][0]
+                aty = strip_ty(a.get("ty") or (n.get("ga") or [""])[-1])
+                if aty.endswith("internal::Label"):
+                    continue        # judged by R2 (label-display)
+                cls, det = fl.classify_str(a, 0)
+                if cls == "literal":
+                    continue
+                n_doc += 1
+                ctx = fl.context(n)
+                key = f"docsink:{fs}:{ctx + ':' if ctx else ''}{short(cal)}"
+                used_keys[key] = used_keys.get(key, 0) + 1
+                if used_keys[key] > 1:
+                    key += f"~{used_keys[key]}"
+                chk.expect(cls in ("format", "ident", "number", "number-text"), key,
+                           f"{fs}: {short(cal)}(..) puts {det if isinstance(det, str) else cls} into the printed document without "
+                           f"quoting/escaping ({cls})", f"{h['span']['file']}:{n.get('ln')}", ok_detail=cls)
+        chk.floor("non-literal document sinks in the value printers", n_doc, 4)
         chk.floor("format placeholders in the value printers", n_place, 30)
         chk.floor("quoted text/byte sinks in the value printers", n_quoted, 6)
         chk.assume("Principal's Display prints only base32 groups (letters, digits 2-7, '-'): no quote or backslash")
@@ -539,9 +586,12 @@ def run(chk, facts, tier, only=None):
                 raise AnchorMissing("pp_char did not evaluate to a string")
             emitted.append(s)
         nbad = 0
+        solo_bad = {w for w in range(256) if decode(emitted[w]) != bytes([w])}
+        ctx_bytes = [None] + [w for w in range(256) if w not in solo_bad and
+                              (not emitted[w].startswith("\\") or w in (0, 0x0a, 0x22, 0x27, 0x5c, 0x60, 0x7f, 0xff))]
         for v in range(256):
             bad = None
-            for w in [None] + list(range(256)):
+            for w in ctx_bytes:
                 body = emitted[v] + (emitted[w] if w is not None else "")
                 want = bytes([v] + ([w] if w is not None else []))
                 got = decode(body)
@@ -558,7 +608,7 @@ def run(chk, facts, tier, only=None):
                         where=f"{h['span']['file']}:{h['span']['lo']}")
         if not nbad:
             lit = sum(1 for v in range(256) if not emitted[v].startswith("\\"))
-            chk.ok("pp_char:256-bytes", f"{lit} bytes printed literally, {256 - lit} as \\xx; all decode to the same byte in all 257 contexts")
+            chk.ok("pp_char:256-bytes", f"{lit} bytes printed literally, {256 - lit} as \\xx; all decode to the same byte in {len(ctx_bytes)} right contexts")
 
     # ------------------------------------------------------------------------------------------------ R2
     def r2():
@@ -620,6 +670,7 @@ def run(chk, facts, tier, only=None):
         raw, lh = label_display_is_raw()
         chk.analysed(lh["key"])
         n_sites = 0
+        seen_keys = {}
         for hh in printer_fns(c):
             if re.search(LABEL_DISPLAY, hh["key"]):
                 continue
@@ -630,6 +681,11 @@ def run(chk, facts, tier, only=None):
                 n_sites += 1
                 seen += 1
                 key = f"label-display:{fs}:{site}"
+                if key in seen_keys:
+                    seen_keys[key] += 1
+                    key += f"~{seen_keys[key]}"
+                else:
+                    seen_keys[key] = 1
                 if not raw:
                     chk.ok(key, "Display for Label quotes named labels itself")
                 else:
@@ -676,11 +732,13 @@ def run(chk, facts, tier, only=None):
                     and any(strip_ty(g).endswith("internal::Label") for g in (n.get("ga") or [])):
                 site = "RcDoc::as_string"
             if site:
-                out.append((site, id(n) in guarded, f"{hh['span']['file']}:{n.get('ln')}"))
+                ctx = fl.context(n)
+                out.append(((ctx + ":" if ctx else "") + site, id(n) in guarded, f"{hh['span']['file']}:{n.get('ln')}"))
         for fc in fmt_calls(body):
             for ph in fc.placeholders():
                 if ph.trait == "display" and strip_ty(ph.ty).endswith("internal::Label"):
-                    out.append((f"{{}} in {vis(fc.template())!r}", id(fc.node) in guarded, f"{hh['span']['file']}:{fc.ln}"))
+                    ctx = fl.context(fc.node)
+                    out.append(((ctx + ":" if ctx else "") + "{}", id(fc.node) in guarded, f"{hh['span']['file']}:{fc.ln}"))
         return out
 
     # ------------------------------------------------------------------------------------------------ R3
@@ -707,6 +765,9 @@ def run(chk, facts, tier, only=None):
                 toks = toks[1:]
             if len(toks) == 1 and toks[0][0] == "Decimal":
                 return sign, toks[0][1]
+            if len(toks) == 1 and toks[0][0] == "Hex" and toks[0][1].startswith(hex_prefix):
+                # parse_number strips the prefix it knows; the grammar converts base 16 to decimal
+                return sign, str(int(toks[0][1][len(hex_prefix):].replace(sep, ""), 16))
             return [(sign, "Sign")] + toks if sign else toks
 
         # value of a Decimal token = the slice with the separators removed (parse_number): extract the filtered character
@@ -716,6 +777,9 @@ def run(chk, facts, tier, only=None):
             raise AnchorMissing(f"token::parse_number: expected one `c != '<sep>'` filter, found {seps}")
         sep = seps[0]
         chk.ok("parse_number:separator", f"parse_number drops {sep!r}")
+        pref = [lit_value(n["args"][0]) for n in walk(pn["body"]) if n.get("k") == "mcall" and n["m"] == "starts_with"
+                and isinstance(lit_value(n["args"][0]), str)]
+        hex_prefix = pref[0] if len(pref) == 1 else "\0"     # only a prefix parse_number strips is a readable hex literal
 
         h = c.fn(r"Debug for candid::types::value::IDLValue>::fmt$")
         chk.analysed(h["key"])
@@ -807,29 +871,32 @@ def run(chk, facts, tier, only=None):
                                f"lexer reads as {bad and bad[2]} instead of one (signed) decimal literal with the same digits",
                                f"{nh['span']['file']}:{r['ln']}", ok_detail=f"{len(outs)} sample values re-lex to the same digits")
                 elif X in ("Float32", "Float64"):
-                    fcs = fmt_calls(r["body"])
-                    ok = len(fcs) == 1 and len(fcs[0].parts) == 2 and isinstance(fcs[0].parts[0], Placeholder)
-                    suffix = fcs[0].parts[1] if ok else None
-                    good = False
-                    detail = None
-                    if ok:
-                        good = True
-                        for base in ("0", "1", "42", "-1", "-0", "1000000000000000000000"):
-                            text = base + suffix
-                            try:
-                                toks = model.tokenize(text)
-                            except LexError as e:
-                                toks = e
-                            kinds = [t[0] for t in toks] if isinstance(toks, list) else toks
-                            want = (["Sign"] if base.startswith("-") else []) + ["Float"]
-                            if kinds != want:
-                                good = False
-                                detail = (text, kinds)
-                                break
-                    chk.expect(good, f"float-suffix:{X}",
-                               f"number_to_string(IDLValue::{X}): integral floats must be printed as `<digits>.0`-like text that the lexer "
-                               f"reads as one Float token; found template {fcs and vis(fcs[0].template())!r}, counterexample {detail}",
-                               f"{nh['span']['file']}:{r['ln']}", ok_detail=f"`{{}}{suffix}` lexes as Float")
+                    names = [n_ for n_ in walk(r["pat"]) if n_.get("k") == "bind"]
+                    if len(names) != 1:
+                        continue
+                    outs = []
+                    try:
+                        for v in (0.0, 1.0, -1.0, 42.0, -0.0, 1e21, 0.5, -2.25, 1234567.0):
+                            outs.append((v, eval_display(c, interp, r["body"], {names[0]["n"]: v})))
+                    except NotEvaluable as e:
+                        chk.bad(f"float-form:{X}", f"anchor moved: number_to_string arm for {X} is outside the evaluable fragment: {e}")
+                        continue
+                    bad = None
+                    for v, text in outs:
+                        try:
+                            toks = model.tokenize(text)
+                        except LexError as e:
+                            toks = e
+                        kinds = [t[0] for t in toks] if isinstance(toks, list) else toks
+                        want = (["Sign"] if text.startswith("-") else []) + ["Float"]
+                        if kinds != want:
+                            bad = (v, text, kinds)
+                            break
+                    chk.expect(bad is None, f"float-form:{X}",
+                               f"number_to_string(IDLValue::{X}) prints {bad and bad[1]!r} for {bad and bad[0]}, which the lexer reads as "
+                               f"{bad and bad[2]} instead of one (signed) Float token: an integer-looking text annotated `: float..` is a type "
+                               f"mismatch on re-parse", f"{nh['span']['file']}:{r['ln']}",
+                               ok_detail=f"{len(outs)} sample floats (integral and fractional) lex as one Float token")
         # labels printed as numbers (Display for Label, Id/Unnamed arm)
         lh = c.fn(LABEL_DISPLAY)
         lm = the_match(lh, r"Label$", 2)
@@ -862,19 +929,17 @@ def run(chk, facts, tier, only=None):
         # has_type_annotation covers every annotated variant; both `opt` printers parenthesise on it
         hh = c.fn(r"pretty::candid::value::has_type_annotation$")
         chk.analysed(hh["key"])
-        hm = the_match(hh, r"IDLValue$", 2)
-        covered = set()
-        for r in arm_rows(hm):
-            if lit_value(r["body"]) is True:
-                for hd in r["heads"]:
-                    if isinstance(hd[0], str) and hd[0].startswith(IV):
-                        covered.add(hd[0][len(IV):])
-                    elif hd[0] == "_":
-                        covered.add("_")
+        en = c.item("enum", r"types::value::IDLValue$")
+        arity = {v["name"]: len(v["fields"]) for v in en["variants"]}
         chk.floor("IDLValue variants printed with a type annotation", len(annotated), 14)
+        OPAQUE = ("opaque",)
         for X in sorted(annotated):
-            chk.expect(X in covered or "_" in covered, f"has_type_annotation:{X}",
-                       f"Debug prints IDLValue::{X} as `v : t` but has_type_annotation does not cover it: `opt {X.lower()}-value` is "
+            try:
+                cov = interp.call_fn(hh, [("enum", IV + X, [OPAQUE] * arity.get(X, 0))])
+            except NotEvaluable as e:
+                raise AnchorMissing(f"has_type_annotation is outside the evaluable fragment: {e}")
+            chk.expect(cov is True, f"has_type_annotation:{X}",
+                       f"Debug prints IDLValue::{X} as `v : t` but has_type_annotation(IDLValue::{X}) is {cov}: `opt <{X.lower()} value>` is "
                        f"printed without parentheses and re-parses as `(opt v) : t`", f"{hh['span']['file']}:{hh['span']['lo']}",
                        ok_detail="covered")
         for fn_re, what in ((r"Debug for candid::types::value::IDLValue>::fmt$", "Debug"), (r"pretty::candid::value::pp_value$", "pp_value")):
